@@ -179,6 +179,7 @@ inductive Err where
   | assertion   -- AssertionError (Loc.shift_left)
   | internal    -- InternalGuppyError (Span.__post_init__)
   | value       -- ValueError (sequence unpacking, min() of an empty sequence)
+  | key         -- KeyError (`SourceMap.sources[span.file]` for an unregistered file)
   deriving DecidableEq, Repr
 
 /-- `diagnostic.wrap(text, width, initial_indent, subsequent_indent)` -/
@@ -424,5 +425,50 @@ def toSpan (src : List Str) (l1 b1 l2 b2 : Nat) : Span :=
   let l2' := if l2 = 0 then l1 else l2
   let b2' := if b2 = 0 then b1 else b2
   ⟨⟨l1, charColumn (src.getD (l1 - 1) []) b1⟩, ⟨l2', charColumn (src.getD (l2' - 1) []) b2'⟩⟩
+
+/-! ## `SourceMap`: registrations over time -/
+
+/-- `str.isspace` on the modelled alphabet -/
+def isSpace (c : Char) : Bool := isWs c || isBreak c
+
+/-- `line.rstrip()` -/
+def rstrip (s : Str) : Str := (s.reverse.dropWhile isSpace).reverse
+
+/-- one call of `SourceMap.add_file` -/
+inductive SrcOp where
+  /-- `add_file(file)`: reads `linecache.getlines(file)` (given: the lines with terminators) -/
+  | cache (file : Str) (lines : List Str)
+  /-- `add_file(file, content)` -/
+  | content (file : Str) (text : Str)
+  deriving Repr
+
+def SrcOp.file : SrcOp → Str
+  | .cache f _ => f
+  | .content f _ => f
+
+/-- the list stored in `sources[file]` by this call -/
+def SrcOp.stored : SrcOp → List Str
+  | .cache _ ls => ls.map rstrip
+  | .content _ t => splitlines t
+
+/-- `SourceMap.sources` as an association list (first match wins) -/
+abbrev SourceMap := List (Str × List Str)
+
+def SourceMap.lookup (m : SourceMap) (file : Str) : Option (List Str) :=
+  match m with
+  | [] => none
+  | (f, ls) :: rest => if f = file then some ls else SourceMap.lookup rest file
+
+/-- `self.sources[file] = ...`: always overwrites -/
+def SourceMap.addFile (m : SourceMap) (op : SrcOp) : SourceMap := (op.file, op.stored) :: m
+
+def SourceMap.applyOps (m : SourceMap) (ops : List SrcOp) : SourceMap := ops.foldl SourceMap.addFile m
+
+/-- `render_snippet` on a renderer whose source map saw `ops` (in this order) -/
+def renderIn (ops : List SrcOp) (file : Str) (span : Span) (label : Option Str) (maxLineno : Nat)
+    (isPrimary : Bool) (prefixLines : Nat) : Except Err (List Str) :=
+  match (SourceMap.applyOps [] ops).lookup file with
+  | none => .error .key
+  | some src => renderSnippet src span label maxLineno isPrimary prefixLines
 
 end GuppyVerif.Render
